@@ -21,7 +21,8 @@ var propPkgs = map[string][]string{
 	"C17": {"./internal/tools/bitmask"},
 	"C01": {"./internal/index"},
 	"C18": {"./internal/tools/regexAnalysis"},
-	"C07": {"./internal/index"},
+	"C07": {"./internal/index", "./internal/index/manager"},
+	"C10": {"./internal/index/manager"},
 	"C15": {"./internal/index/converters"},
 	"C14": {"./internal/query"},
 	"C03": {"./internal/query"},
